@@ -13,6 +13,7 @@ import specgen_mixed
 import compilepool
 import displaystrip
 import rankrename
+import specgen_occ2
 import runlib
 import execlib
 import popgen
@@ -83,6 +84,8 @@ def run(ctx):
     rng = ctx.rng
     q = ctx.quick()
     base = list(popgen.plain(rng, 110 if q else 900)) + list(popgen.shape(rng, 110 if q else 900)) + list(popgen.occupancy(rng, 160 if q else 1300))
+    # occupancy levels with a different leader per level (tools/specgen_occ2.py)
+    base += [x for x in (specgen_occ2.multi_leader_occupancy(rng) for _ in range(60 if q else 500)) if x]
     pops = list(popgen.with_spacetime(rng, base))
     # index arithmetic (C04's population) and cascades under a display: executed in pairs (with / without the spacetime)
     pops += list(popgen.with_spacetime(rng, list(popgen.affine(rng, 130 if q else 1100))))
@@ -237,7 +240,7 @@ def run(ctx):
     ctx.coverage.update({
         "programs": distinct_p, "executions": len(cases), "disagreements_checked": bad, "evaluations": len(cases), "distinct_nontrivial": distinct_p,
         "population": stats, "activities_observed": nact,
-        "rule": "C01-C03 populations (40% with their ranks renamed away from J,K,M,N) + C04's index-arithmetic population (shape partitioning with follow) + mixed cascades, each with a spacetime stamping every loop rank: random space/time split, "
+        "rule": "C01-C03 populations + multi-level occupancy with a different leader per level (40% of all these with their ranks renamed away from J,K,M,N) + C04's index-arithmetic population (shape partitioning with follow) + mixed cascades, each with a spacetime stamping every loop rank: random space/time split, "
                 "random time order, styles default/.pos/.coord per rank, slip 30%; static: display-stripped text == text compiled without the spacetime (every specification); "
                 "one execution each against the oracle; index-arithmetic and cascade programs executed in pairs with/without the spacetime on identical inputs",
         "samples": [{"yaml": cases[0].spec.yaml, "result": cases[0].raw}],
